@@ -17,6 +17,14 @@ CLAIMED = {
             "Kernel-checked theorems over the model of make_relative_path: for every base path and every target made of ordinary components (any depths, any shared prefix, both separators, repeated separators, absolute or relative), resolving the returned path against the base file's directory yields the target's components; the result is '.' exactly when the target is that directory; the common-prefix helper equals the longest-common-prefix length for two lists. Tied to the code by an exhaustive differential run over all pairs of 1..3(4)-component paths from a 3-name pool plus random deeper pairs.",
             "Trusted: Lean kernel, hand-written model lean/SmVerif/Model/Paths.lean, harness/driver; std str::split, stable sort_by_key and join as documented. Paths are compared as component lists.",
             "Lean 4 proof (list induction) + exhaustive small-scope differential correspondence"),
+    "C06": ("7/C06",
+            "Kernel-checked theorems over the model of decode_regular's token loop: whenever an independent reading of the mappings string (all segments located, read with the standard VLQ reader, indices accumulated as unbounded integers) finds one of the listed faults - foreign byte, cut-off value, value of more than 13 digits, 2/3/>5 fields, source or name running index outside its array in either direction - decoding returns an error (c06_fault_rejected, plus one text-level theorem per fault class); no successfully decoded token has an unresolvable index. Tied to the code by a differential run over single- and double-fault mutants of generated documents (incl. +-2^32 multiples, bytes >= 0x80 at every offset, empty arrays) and exhaustive short strings.",
+            "Trusted: Lean kernel, models lean/SmVerif/Model/{Vlq,Mappings,V3Spec}.lean, harness/driver/extractor; serde_json hands the mappings string and array lengths to the decoder unchanged. Earlier faults may win: the theorems promise an error, not its kind. A 13-digit value that overflows i64 is outside the property (the reading reports `outside`).",
+            "Lean 4 proof (simulation between decoder loops and a declarative reading) + differential correspondence"),
+    "C07": ("7/C07",
+            "Kernel-checked theorems: (a) for every position-ordered well-formed token list with any assignment of range flags, serialising mappings+rangeMappings and decoding again returns the deduplicated tokens in wire normal form, in particular exactly the same range flags (c01_mappings_roundtrip, c07_flags_roundtrip; unbounded tokens per line and lines); (b) the 6-bit bitfield codec is the identity on every index (c07_rmi_codec); (c) lookup on the token's own line reports the original column advanced by the distance (saturating), any other lookup the token's own column, and lookup never panics (c07_lookup_same_line/other, c04_lookup_safe). Tied to the code by a differential run: every subset of flags on lines of <= 6 tokens, long lines with flags at 0/15/16/17/31/32/last, duplicates before range tokens, several lines with gaps, lookups on/after/below the token.",
+            "Trusted: Lean kernel, models lean/SmVerif/Model/{Mappings,Lookup,V3Spec}.lean, harness/driver; bitvec Lsb0 load/store_le on a little-endian target; tokens reach SourceMap::new ordered whenever positions repeat. Four defects found by this property (F3-F6) were repaired in /repo; their witnesses stay in the corpus.",
+            "Lean 4 proof (lock-step induction over encoder and decoder) + exhaustive small-scope differential correspondence"),
 }
 
 PENDING_REASON = "not claimed yet: model/theorems for this property are still being built (see DESIGN.md section 7); no check is registered rather than registering an unsound one"
